@@ -19,7 +19,7 @@ Lemma skipn_app_exact {A} (k : nat) (l1 l2 : list A) : skipn (length l1 + k) (l1
 Proof. rewrite skipn_app, skipn_all2 by lia. cbn. f_equal. lia. Qed.
 
 (* tryGrowByReslice(n), 0 <= n: when n fits into the spare capacity the buffer is extended by n bytes of it *)
-Lemma try_grow_spec : forall d sp o l n, 0 <= n ->
+Lemma try_grow_spec : forall (d sp : bytes) o l n, 0 <= n ->
   Buffers.buf_try_grow (d, sp) o l n =
   if n <=? Z.of_nat (length sp)
   then BOk (Z.of_nat (length d), true) ((d ++ firstn (Z.to_nat n) sp, skipn (Z.to_nat n) sp), o, l)
@@ -31,7 +31,7 @@ Proof.
   all: rewrite firstn_app_exact, skipn_app_exact; reflexivity.
 Qed.
 
-Lemma try_grow_ref_spec : forall d sp o l n, 0 <= n ->
+Lemma try_grow_ref_spec : forall (d sp : bytes) o l n, 0 <= n ->
   buf_try_grow_ref (d, sp) o l n =
   if n <=? Z.of_nat (length sp)
   then BOk (Z.of_nat (length d), true) ((d ++ firstn (Z.to_nat n) sp, skipn (Z.to_nat n) sp), o, l)
@@ -67,13 +67,13 @@ Ltac rup_facts Hrup :=
     lazymatch goal with H : x <= r x |- _ => fail | _ => pose proof (Hrup x) end end.
 
 (* grow(n) on a state that needs no reset: d1 = the bytes already read, d2 = the unread bytes *)
-Lemma grow_noreset : forall rup maxalloc nil d1 d2 sp l n,
-  (forall c, c <= rup c) -> (nil = true -> d1 = [] /\ d2 = [] /\ sp = []) -> 0 <= n ->
+Lemma grow_noreset : forall rup maxalloc nil nil2 (d1 d2 sp : bytes) l n,
+  (forall c, c <= rup c) -> ((n <=? 64) = true -> nil = nil2 /\ (nil = true -> d1 = [] /\ d2 = [] /\ sp = [])) -> 0 <= n ->
   (d2 = [] -> d1 = []) ->
   grow_gen_view (Buffers.buf_grow_int (d1 ++ d2, sp) (Z.of_nat (length d1)) l (fun _ => nil) (grow_slice_oracle rup maxalloc) n)
-  = grow_model_view n (grow rup maxalloc (abs_pc nil ((d1 ++ d2, sp), Z.of_nat (length d1), l)) n).
+  = grow_model_view n (grow rup maxalloc (abs_pc nil2 ((d1 ++ d2, sp), Z.of_nat (length d1), l)) n).
 Proof.
-  intros rup maxalloc nil d1 d2 sp l n Hrup Hnil Hn Hre.
+  intros rup maxalloc nil nil2 d1 d2 sp l n Hrup Hnil Hn Hre.
   assert (Hc : (Z.of_nat (length (d1 ++ d2)) - Z.of_nat (length d1) =? 0) && negb (Z.of_nat (length d1) =? 0) = false).
   { rewrite app_length. destruct d2; [rewrite (Hre eq_refl); reflexivity|]. cbn [length]. lia. }
   unfold Buffers.buf_grow_int, buf_grow_int_ref, Buffers.buf_len, buf_len_ref.
@@ -90,7 +90,10 @@ Proof.
   all: replace (Z.of_nat (length d1 + length d2) - Z.of_nat (length d1)) with (Z.of_nat (length d2)) by lia.
   all: replace (Z.of_nat (length d1 + length d2 + length sp) - Z.of_nat (length d1 + length d2)) with (Z.of_nat (length sp)) by lia.
   all: replace (Z.of_nat (length d1 + length d2 + length sp) - Z.of_nat (length d1)) with (Z.of_nat (length d2 + length sp)) by lia.
-  all: destruct nil; [destruct (Hnil eq_refl) as (-> & -> & ->); cbn [length app Nat.add] in * |].
+  all: destruct (n <=? 64) eqn:E64;
+       [ destruct (Hnil eq_refl) as [<- Hnil']; destruct nil;
+         [destruct (Hnil' eq_refl) as (-> & -> & ->); cbn [length app Nat.add] in * |]
+       | rewrite ?andb_false_r ].
   all: repeat (gen_split; gen_inj; cbn [fst snd] in *; norm_len; try discriminate; try lia).
   all: cbn [fst snd data off cap isnil last_read] in *; norm_len.
   all: try lia.
@@ -106,7 +109,7 @@ Proof.
 Qed.
 
 (* a state that needs the reset: grow continues exactly as on the state Reset leaves *)
-Lemma grow_reset_gen : forall d sp o l f g n,
+Lemma grow_reset_gen : forall (d sp : bytes) o l f g n,
   (Z.of_nat (length d) - o =? 0) && negb (o =? 0) = true ->
   Buffers.buf_grow_int (d, sp) o l f g n = Buffers.buf_grow_int ([], d ++ sp) 0 0 f g n.
 Proof.
@@ -119,7 +122,7 @@ Proof.
   reflexivity.
 Qed.
 
-Lemma grow_reset_model : forall rup maxalloc nil d sp o l n,
+Lemma grow_reset_model : forall rup maxalloc nil (d sp : bytes) o l n,
   (Z.of_nat (length d) - o =? 0) && negb (o =? 0) = true ->
   grow rup maxalloc (abs_pc nil ((d, sp), o, l)) n = grow rup maxalloc (abs_pc nil (([], d ++ sp), 0, 0)) n.
 Proof.
@@ -129,32 +132,71 @@ Proof.
   replace (Z.of_nat (length d) - o) with 0 by lia. reflexivity.
 Qed.
 
-Lemma gen_buf_grow_int : forall rup maxalloc nil d sp o l n,
-  (forall c, c <= rup c) -> st_wf nil ((d, sp), o, l) = true -> 0 <= n ->
+Lemma gen_buf_grow_int_g : forall rup maxalloc nil nil2 (d sp : bytes) o l n,
+  (forall c, c <= rup c) -> 0 <= o <= Z.of_nat (length d) ->
+  ((n <=? 64) = true -> nil = nil2 /\ (nil = true -> d = [] /\ sp = [])) -> 0 <= n ->
   grow_gen_view (Buffers.buf_grow_int (d, sp) o l (fun _ => nil) (grow_slice_oracle rup maxalloc) n)
-  = grow_model_view n (grow rup maxalloc (abs_pc nil ((d, sp), o, l)) n).
+  = grow_model_view n (grow rup maxalloc (abs_pc nil2 ((d, sp), o, l)) n).
 Proof.
-  intros rup maxalloc nil d sp o l n Hrup Hwf Hn. unfold st_wf, sl_len, sl_cap in Hwf. cbn [fst snd] in Hwf.
+  intros rup maxalloc nil nil2 d sp o l n Hrup Hwf Hnil Hn.
   destruct ((Z.of_nat (length d) - o =? 0) && negb (o =? 0)) eqn:Hc.
   - rewrite grow_reset_gen by exact Hc.
-    replace (grow rup maxalloc (abs_pc nil (d, sp, o, l)) n) with (grow rup maxalloc (abs_pc nil (([], d ++ sp), 0, 0)) n)
+    replace (grow rup maxalloc (abs_pc nil2 (d, sp, o, l)) n) with (grow rup maxalloc (abs_pc nil2 (([], d ++ sp), 0, 0)) n)
       by (symmetry; apply grow_reset_model; exact Hc).
-    apply (grow_noreset rup maxalloc nil [] [] (d ++ sp) 0 n Hrup); [|exact Hn|reflexivity].
-    intros ->. destruct d; [|cbn [length] in *; lia]. destruct sp; [auto|cbn [length] in *; lia].
+    apply (grow_noreset rup maxalloc nil nil2 [] [] (d ++ sp) 0 n Hrup); [|exact Hn|reflexivity].
+    intros E. destruct (Hnil E) as [-> Hn']. split; [reflexivity|]. intros E2. destruct (Hn' E2) as [-> ->]. auto.
   - rewrite <- (firstn_skipn (Z.to_nat o) d).
     assert (Ho : o = Z.of_nat (length (firstn (Z.to_nat o) d))) by (rewrite firstn_length; lia).
     assert (Hd2 : skipn (Z.to_nat o) d = [] -> firstn (Z.to_nat o) d = []).
     { intros E. apply (f_equal (@length byte)) in E. rewrite skipn_length in E. cbn [length] in E.
       assert (o = 0) by lia. subst o. reflexivity. }
-    assert (Hn0 : nil = true -> firstn (Z.to_nat o) d = [] /\ skipn (Z.to_nat o) d = [] /\ sp = []).
-    { intros ->. destruct d; [|cbn [length] in *; lia]. destruct sp; [|cbn [length] in *; lia].
+    assert (Hn0 : (n <=? 64) = true -> nil = nil2 /\ (nil = true -> firstn (Z.to_nat o) d = [] /\ skipn (Z.to_nat o) d = [] /\ sp = [])).
+    { intros E. destruct (Hnil E) as [-> Hn']. split; [reflexivity|]. intros E2. destruct (Hn' E2) as [-> ->].
       rewrite firstn_nil, skipn_nil. auto. }
     revert Ho Hd2 Hn0. generalize (firstn (Z.to_nat o) d) (skipn (Z.to_nat o) d). intros d1 d2 Ho Hd2 Hn0.
     rewrite Ho. apply grow_noreset; assumption.
 Qed.
 
+Lemma st_wf_facts : forall nil (d sp : bytes) o l, st_wf nil ((d, sp), o, l) = true ->
+  0 <= o <= Z.of_nat (length d) /\ (nil = true -> d = [] /\ sp = []).
+Proof.
+  intros nil d sp o l Hwf. unfold st_wf, sl_len, sl_cap in Hwf. cbn [fst snd] in Hwf. split; [lia|].
+  intros ->. destruct d; [|cbn [length] in *; lia]. destruct sp; [auto|cbn [length] in *; lia].
+Qed.
+
+Lemma gen_buf_grow_int : forall rup maxalloc nil (d sp : bytes) o l n,
+  (forall c, c <= rup c) -> st_wf nil ((d, sp), o, l) = true -> 0 <= n ->
+  grow_gen_view (Buffers.buf_grow_int (d, sp) o l (fun _ => nil) (grow_slice_oracle rup maxalloc) n)
+  = grow_model_view n (grow rup maxalloc (abs_pc nil ((d, sp), o, l)) n).
+Proof.
+  intros rup maxalloc nil d sp o l n Hrup Hwf Hn. destruct (st_wf_facts _ _ _ _ _ Hwf) as [H1 H2].
+  apply gen_buf_grow_int_g; auto.
+Qed.
+
 (* the same, as the three cases of the generated result *)
-Lemma grow_int_cases : forall rup maxalloc nil d sp o l n,
+Lemma grow_int_cases_g : forall rup maxalloc nil nil2 (d sp : bytes) o l n,
+  (forall c, c <= rup c) -> 0 <= o <= Z.of_nat (length d) ->
+  ((n <=? 64) = true -> nil = nil2 /\ (nil = true -> d = [] /\ sp = [])) -> 0 <= n ->
+  match Buffers.buf_grow_int (d, sp) o l (fun _ => nil) (grow_slice_oracle rup maxalloc) n with
+  | BOk m (b, o', l') => exists s', grow rup maxalloc (abs_pc nil2 ((d, sp), o, l)) n = GOk s'
+      /\ data s' = firstn (Z.to_nat m) (fst b) /\ off s' = o' /\ cap s' = sl_cap b /\ last_read s' = l'
+      /\ m = Z.of_nat (length (data s')) /\ Z.of_nat (length (fst b)) = m + n
+  | BRange _ => grow rup maxalloc (abs_pc nil2 ((d, sp), o, l)) n = GPanic PRange
+  | BPanic p _ => grow rup maxalloc (abs_pc nil2 ((d, sp), o, l)) n = GPanic (panic_of p)
+  end.
+Proof.
+  intros rup maxalloc nil nil2 d sp o l n Hrup Hwf Hnil Hn.
+  pose proof (gen_buf_grow_int_g rup maxalloc nil nil2 d sp o l n Hrup Hwf Hnil Hn) as H.
+  destruct (Buffers.buf_grow_int (d, sp) o l (fun _ => nil) (grow_slice_oracle rup maxalloc) n) as [m [[b o'] l']|st|p st];
+  destruct (grow rup maxalloc (abs_pc nil2 (d, sp, o, l)) n) as [s'|q];
+  unfold grow_gen_view, grow_model_view, forget, blen, zlen, ztake, sl_len in H; try discriminate.
+  - injection H as H1 H2 H3. exists s'. split; [reflexivity|]. destruct s' as [sd so sc sn sl]; cbn [data off cap isnil last_read] in *.
+    subst. repeat split; try reflexivity; lia.
+  - injection H as ->. reflexivity.
+  - injection H as ->. reflexivity.
+Qed.
+
+Lemma grow_int_cases : forall rup maxalloc nil (d sp : bytes) o l n,
   (forall c, c <= rup c) -> st_wf nil ((d, sp), o, l) = true -> 0 <= n ->
   match Buffers.buf_grow_int (d, sp) o l (fun _ => nil) (grow_slice_oracle rup maxalloc) n with
   | BOk m (b, o', l') => exists s', grow rup maxalloc (abs_pc nil ((d, sp), o, l)) n = GOk s'
@@ -164,15 +206,8 @@ Lemma grow_int_cases : forall rup maxalloc nil d sp o l n,
   | BPanic p _ => grow rup maxalloc (abs_pc nil ((d, sp), o, l)) n = GPanic (panic_of p)
   end.
 Proof.
-  intros rup maxalloc nil d sp o l n Hrup Hwf Hn.
-  pose proof (gen_buf_grow_int rup maxalloc nil d sp o l n Hrup Hwf Hn) as H.
-  destruct (Buffers.buf_grow_int (d, sp) o l (fun _ => nil) (grow_slice_oracle rup maxalloc) n) as [m [[b o'] l']|st|p st];
-  destruct (grow rup maxalloc (abs_pc nil (d, sp, o, l)) n) as [s'|q];
-  unfold grow_gen_view, grow_model_view, forget, blen, zlen, ztake, sl_len in H; try discriminate.
-  - injection H as H1 H2 H3. exists s'. split; [reflexivity|]. destruct s' as [sd so sc sn sl]; cbn [data off cap isnil last_read] in *.
-    subst. repeat split; try reflexivity; lia.
-  - injection H as ->. reflexivity.
-  - injection H as ->. reflexivity.
+  intros rup maxalloc nil d sp o l n Hrup Hwf Hn. destruct (st_wf_facts _ _ _ _ _ Hwf) as [H1 H2].
+  apply grow_int_cases_g; auto.
 Qed.
 
 Ltac wv_unfold :=
@@ -181,7 +216,7 @@ Ltac wv_unfold :=
   cbn [fst snd data off cap isnil last_read] in *.
 
 (* Grow(n) *)
-Lemma gen_buf_grow : forall rup maxalloc nil d sp o l n,
+Lemma gen_buf_grow : forall rup maxalloc nil (d sp : bytes) o l n,
   (forall c, c <= rup c) -> st_wf nil ((d, sp), o, l) = true ->
   wview (bview nil res_unit (Buffers.buf_grow (d, sp) o l (fun _ => nil) (grow_slice_oracle rup maxalloc) n))
   = wview (cstep rup maxalloc (abs_pc nil ((d, sp), o, l)) (OGrow n)).
@@ -252,7 +287,7 @@ Ltac put_proof rup maxalloc nil d sp o Hrup Hwf need :=
     | rewrite H; reflexivity
     | rewrite H; reflexivity ] ].
 
-Lemma gen_buf_write : forall rup maxalloc nil d sp o l pd psp,
+Lemma gen_buf_write : forall rup maxalloc nil (d sp : bytes) o l pd psp,
   (forall c, c <= rup c) -> st_wf nil ((d, sp), o, l) = true ->
   wview (bview nil (fun v : Z * err => Res [fst v] [] (snd v))
            (Buffers.buf_write (d, sp) o l (fun _ => nil) (grow_slice_oracle rup maxalloc) (pd, psp)))
@@ -263,7 +298,7 @@ Proof.
   put_proof rup maxalloc nil d sp o Hrup Hwf (Z.of_nat (length pd)).
 Qed.
 
-Lemma gen_buf_write_string : forall rup maxalloc nil d sp o l str,
+Lemma gen_buf_write_string : forall rup maxalloc nil (d sp : bytes) o l str,
   (forall c, c <= rup c) -> st_wf nil ((d, sp), o, l) = true ->
   wview (bview nil (fun v : Z * err => Res [fst v] [] (snd v))
            (Buffers.buf_write_string (d, sp) o l (fun _ => nil) (grow_slice_oracle rup maxalloc) str))
@@ -274,7 +309,7 @@ Proof.
   put_proof rup maxalloc nil d sp o Hrup Hwf (Z.of_nat (length str)).
 Qed.
 
-Lemma gen_buf_write_byte : forall rup maxalloc nil d sp o l c,
+Lemma gen_buf_write_byte : forall rup maxalloc nil (d sp : bytes) o l c,
   (forall c, c <= rup c) -> st_wf nil ((d, sp), o, l) = true ->
   wview (bview nil res_err (Buffers.buf_write_byte (d, sp) o l (fun _ => nil) (grow_slice_oracle rup maxalloc) (bz c)))
   = wview (cstep rup maxalloc (abs_pc nil ((d, sp), o, l)) (OWriteByte c)).
@@ -282,4 +317,116 @@ Proof.
   intros rup maxalloc nil d sp o l c Hrup Hwf.
   unfold Buffers.buf_write_byte, buf_write_byte_ref.
   put_proof rup maxalloc nil d sp o Hrup Hwf 1; rewrite ?zb_bz; st_eq.
+Qed.
+
+Lemma sl_to_cut : forall bd bs m, 0 <= m <= Z.of_nat (length bd) ->
+  sl_to (bd, bs) m = Some (firstn (Z.to_nat m) bd, skipn (Z.to_nat m) bd ++ bs).
+Proof.
+  intros bd bs m H. unfold sl_to, sl_cap, sl_all. cbn [fst snd].
+  replace ((m <? 0) || (Z.of_nat (length bd + length bs) <? m)) with false by lia.
+  rewrite firstn_app_le, skipn_app_le by lia. reflexivity.
+Qed.
+Lemma sl_range_spare : forall x y, sl_range (x, y) (Z.of_nat (length x)) (sl_cap (x, y)) = Some (y, []).
+Proof.
+  intros x y. unfold sl_range, sl_cap, sl_all. cbn [fst snd].
+  replace ((Z.of_nat (length x) <? 0) || (Z.of_nat (length x + length y) <? Z.of_nat (length x))
+           || (Z.of_nat (length x + length y) <? Z.of_nat (length x + length y))) with false by lia.
+  rewrite !Nat2Z.id, skipn_len_app. replace (Z.to_nat (Z.of_nat (length x + length y) - Z.of_nat (length x))) with (length y) by lia.
+  rewrite firstn_all, <- app_length, skipn_all. reflexivity.
+Qed.
+Lemma rd_read_data : forall x y bs0 e t,
+  rd_read (x, y) (RData bs0 e :: t) (y, []) =
+  BOk (Z.of_nat (length (firstn (length y) bs0)), rerr_err e) ((x, firstn (length y) bs0 ++ skipn (length (firstn (length y) bs0)) y), t).
+Proof.
+  intros x y bs0 e t. unfold rd_read, sl_cap, sl_len, sl_all. cbn [fst snd].
+  replace (Z.to_nat (Z.of_nat (length x + length y) - Z.of_nat (length y))) with (length x) by lia.
+  rewrite firstn_len_app, skipn_app_exact. rewrite firstn_len_app, skipn_len_app. reflexivity.
+Qed.
+Lemma sl_to_app : forall x g rest, sl_to (x, g ++ rest) (Z.of_nat (length x) + Z.of_nat (length g)) = Some (x ++ g, rest).
+Proof.
+  intros x g rest. unfold sl_to, sl_cap, sl_all. cbn [fst snd]. rewrite app_length.
+  replace ((Z.of_nat (length x) + Z.of_nat (length g) <? 0)
+           || (Z.of_nat (length x + (length g + length rest)) <? Z.of_nat (length x) + Z.of_nat (length g))) with false by lia.
+  replace (Z.to_nat (Z.of_nat (length x) + Z.of_nat (length g))) with (length (x ++ g)) by (rewrite app_length; lia).
+  rewrite app_assoc, firstn_len_app, skipn_len_app. reflexivity.
+Qed.
+
+Lemma grow_off : forall rup maxalloc s n s', 0 <= off s <= blen s -> grow rup maxalloc s n = GOk s' -> 0 <= off s' <= blen s'.
+Proof.
+  intros rup maxalloc s n s' H. unfold grow, creset, clen, blen, zlen, contents in *. destruct s as [sd so sc sn sl].
+  cbn [data off cap isnil last_read] in *.
+  repeat (gen_split; cbn [data off cap isnil last_read] in *; try discriminate);
+  intros Eq_; injection Eq_ as <-; cbn [data off cap isnil last_read length]; lia.
+Qed.
+
+(* ReadFrom: the reader is a script; every round grows by MinRead, hands the reader the whole spare capacity and
+   takes what it delivered *)
+Lemma gen_buf_read_from : forall rup maxalloc nil (d sp : bytes) o l script,
+  (forall c, c <= rup c) -> 0 <= o <= Z.of_nat (length d) ->
+  wview (bview_rf nil (Buffers.buf_read_from (d, sp) o l (fun _ => nil) (grow_slice_oracle rup maxalloc) tt script))
+  = wview (cstep rup maxalloc (abs_pc nil ((d, sp), o, l)) (OReadFrom script)).
+Proof.
+  intros rup maxalloc nil d sp o l script Hrup Hwf.
+  unfold Buffers.buf_read_from, buf_read_from_ref, cstep. cbv zeta.
+  change buf_grow_int_ref with Buffers.buf_grow_int || idtac.
+  match goal with |- context [go_loop_b _ ?F _] => set (F' := F) end.
+  assert (L : forall script fuel nil2 (d sp : bytes) o l n e0, 0 <= o <= Z.of_nat (length d) -> (length script < fuel)%nat ->
+    exists r, go_loop_b fuel F' ((d, sp), n, e0, o, l, script) = Some (LrEnd r)
+      /\ wview (bview_rf nil2 r) = wview (c_readfrom rup maxalloc (abs_pc nil2 ((d, sp), o, l)) script n)).
+  { intros scr. induction scr as [|a t IH]; intros fuel nil2 d1 sp1 o1 l1 n e0 Hw Hf;
+    (destruct fuel as [|fuel]; [cbn [length] in Hf; lia|]); cbn [go_loop_b]; unfold F' at 1; cbv beta iota zeta.
+    all: pose proof (grow_int_cases_g rup maxalloc nil nil2 d1 sp1 o1 l1 512 Hrup Hw ltac:(intros E; discriminate E) ltac:(lia)) as G.
+    all: revert G; destruct (Buffers.buf_grow_int (d1, sp1) o1 l1 (fun _ => nil) (grow_slice_oracle rup maxalloc) 512)
+           as [m [[[bd bs] o'] l']|[[b o'] l']|q [[b o'] l']]; cbv beta iota zeta; intros G.
+    all: try (eexists; split; [reflexivity|]; cbn [c_readfrom]; unfold MinRead; rewrite G; reflexivity).
+    all: destruct G as (s' & Gs & Hd & Ho & Hc & Hl & Hm & Hlen); cbn [fst snd] in *.
+    all: assert (Hoff : 0 <= off s' <= blen s')
+           by (eapply grow_off; [|exact Gs]; unfold abs_pc, blen, zlen; cbn [data off fst]; exact Hw).
+    all: rewrite sl_to_cut by lia.
+    all: set (x := firstn (Z.to_nat m) bd) in *; set (y := skipn (Z.to_nat m) bd ++ bs).
+    all: assert (Hmx : m = Z.of_nat (length x)) by (rewrite Hm, Hd; reflexivity).
+    all: rewrite Hmx; rewrite sl_range_spare.
+    all: assert (Hs' : forget s' = forget (abs_pc nil2 ((x, y), o', l'))).
+    1,3: (destruct s' as [sd so sc sn sl]; unfold forget, abs_pc, sl_cap in *; cbn [data off cap isnil last_read fst snd] in *;
+          subst sd so sc sl; f_equal; try reflexivity; unfold x, y; rewrite ?app_length, ?firstn_length, ?skipn_length; lia).
+    - (* the script is used up: (0, io.EOF) *)
+      cbn [rd_read]. cbv beta iota zeta. cbn [Z.ltb Z.compare].
+      rewrite Z.add_0_r, sl_to_cut by lia. rewrite Nat2Z.id, firstn_all, skipn_all. cbn [app err_eqb].
+      eexists; split; [reflexivity|]. cbn [c_readfrom]. unfold MinRead. rewrite Gs.
+      unfold wview, bview_rf. cbn [fst snd halts]. rewrite Hs', Z.add_0_r. reflexivity.
+    - destruct a as [bs0 e|].
+      + rewrite rd_read_data. cbv beta iota zeta. set (got := firstn (length y) bs0).
+        replace (Z.of_nat (length got) <? 0) with false by lia.
+        rewrite sl_to_app.
+        assert (Hgot : got = ztake (cap s' - blen s') bs0).
+        { unfold got, ztake. f_equal. apply (f_equal cap) in Hs'. unfold forget, abs_pc, sl_cap, blen, zlen in *.
+          cbn [cap data fst snd] in *. rewrite Hd in *. fold x in Hs' |- *. lia. }
+        cbn [c_readfrom]. unfold MinRead. rewrite Gs. rewrite <- Hgot.
+        assert (Hs2 : forget (cappend s' got) = forget (abs_pc nil2 ((x ++ got, skipn (length got) y), o', l'))).
+        { destruct s' as [sd so sc sn sl]. unfold forget, cappend, abs_pc, sl_cap in *. cbn [data off cap isnil last_read fst snd] in *.
+          injection Hs' as -> -> -> ->. f_equal. rewrite !app_length, skipn_length.
+          assert (length got <= length y)%nat by (unfold got; rewrite firstn_length; lia). lia. }
+        destruct e; cbn [rerr_err err_eqb err_is_enil negb].
+        * (* RNil: next round *)
+          destruct (IH fuel (isnil (cappend s' got)) (x ++ got) (skipn (length got) y) o' l' (n + Z.of_nat (length got)) e0) as (r & Hr1 & Hr2).
+          { rewrite app_length. unfold blen, zlen in Hoff. rewrite Hd in Hoff. fold x in Hoff. lia. }
+          { cbn [length] in Hf. lia. }
+          exists r. split; [exact Hr1|].
+          assert (Hst : abs_pc (isnil (cappend s' got)) ((x ++ got, skipn (length got) y), o', l') = cappend s' got).
+          { destruct s' as [sd so sc sn sl]. unfold forget, cappend, abs_pc, sl_cap in *. cbn [data off cap isnil last_read fst snd] in *.
+            injection Hs2 as E1 E2 E3 E4. rewrite E1, E2, E3, E4. injection Hs' as -> _ _ _. reflexivity. }
+          transitivity (wview (bview_rf (isnil (cappend s' got)) r));
+            [destruct r as [v [[[? ?] ?] ?]|[[[? ?] ?] ?]|? [[[? ?] ?] ?]]; reflexivity|].
+          rewrite Hr2. unfold zlen. f_equal. f_equal. exact Hst.
+        * (* REOF *)
+          eexists; split; [reflexivity|]. unfold wview, bview_rf. cbn [fst snd halts]. rewrite Hs2. reflexivity.
+        * (* RErr *)
+          eexists; split; [reflexivity|]. unfold wview, bview_rf. cbn [fst snd halts]. rewrite Hs2. reflexivity.
+      + (* RNeg *)
+        cbn [rd_read]. cbv beta iota zeta. cbn [Z.ltb Z.compare].
+        eexists; split; [reflexivity|]. cbn [c_readfrom]. unfold MinRead. rewrite Gs. reflexivity. }
+  destruct (L script (S (length script)) nil d sp o 0 0 ENil Hwf ltac:(lia)) as (r & Hr1 & Hr2).
+  match goal with |- context [go_loop_b ?fl F' ?st] =>
+    let H := fresh "H" in assert (H : go_loop_b fl F' st = Some (LrEnd r)) by exact Hr1; rewrite H end.
+  exact Hr2.
 Qed.
